@@ -1,23 +1,31 @@
 (** C18 — comparison series depend only on the result set; bootstrap summaries
     are sane; date normalisation.  Statements only; proofs are in
-    Proofs/{Series,SeriesPerm,SeriesWitness,SeriesSpec,SeriesSpelling,Bootstrap,BootstrapHull,
-    PercentileReal,BootstrapPercentile,Dates,DatesOrder,SeriesHist}.v. *)
+    Proofs/{Series,SeriesPerm,SeriesWitness,SeriesSpec,SeriesSpelling,SeriesFindings,Bootstrap,BootstrapHull,
+    PercentileReal,BootstrapPercentile,Dates,DatesOrder,DatesRange,SeriesHist}.v. *)
 From Coq Require Import Permutation Reals.
 From Flocq Require Import Core BinarySingleNaN.
-From Perf Require Import Base.Bytes Base.B64 Base.Usort Model.Dates Model.Bootstrap Model.BootstrapSpec Model.Series Model.SeriesSpec
+From Perf Require Import Base.Bytes Base.B64 Base.Usort Model.Dates Model.Bootstrap Model.BootstrapSpec Model.Series Model.SeriesSpec Model.SeriesFindings
      Model.SeriesHist Proofs.SeriesHist
-     Proofs.Dates Proofs.DatesOrder Proofs.Bootstrap Proofs.Series Proofs.SeriesPerm Proofs.SeriesWitness
-     Proofs.SeriesSpec Proofs.SeriesSpelling Proofs.B64Flocq Proofs.LegacyMean Proofs.PercentileReal Proofs.BootstrapHull Proofs.BootstrapPercentile.
+     Proofs.Dates Proofs.DatesOrder Proofs.DatesRange Proofs.Bootstrap Proofs.Series Proofs.SeriesPerm Proofs.SeriesWitness
+     Proofs.SeriesSpec Proofs.SeriesSpelling Proofs.SeriesFindings Proofs.B64Flocq Proofs.LegacyMean Proofs.PercentileReal Proofs.BootstrapHull Proofs.BootstrapPercentile.
 Local Open Scope Z_scope.
 
-(** * dates *)
+(** * dates
+    [normalize_date] models NormalizeDateString WITH the repair
+    hooks/fix_c18_date_year_range.diff (a text whose instant has a UTC year
+    outside 0..9999 is rejected); [normalize_date_asis] is the code as it stands *)
+
+(** both accepted formats denoting one instant have one outcome: the same
+    string, for an instant of a four-digit UTC year; rejected both, otherwise *)
 Theorem C18_normalize_same_instant : forall s1 s2 i,
   denotes s1 = Some i -> denotes s2 = Some i ->
-  normalize_date s1 = Some (format_instant i) /\ normalize_date s2 = Some (format_instant i).
+  normalize_date s1 = normalize_date s2 /\
+  (year_inrange_b i = true -> normalize_date s1 = Some (format_instant i)).
 Proof. exact normalize_same_instant. Qed.
 Print Assumptions C18_normalize_same_instant.
 
-Theorem C18_normalize_defined_iff : forall s, normalize_date s <> None <-> denotes s <> None.
+Theorem C18_normalize_defined_iff : forall s,
+  normalize_date s <> None <-> exists i, denotes s = Some i /\ year_inrange_b i = true.
 Proof. exact normalize_defined_iff. Qed.
 Print Assumptions C18_normalize_defined_iff.
 
@@ -30,18 +38,50 @@ Theorem C18_normalized_sorts_chronologically : forall i1 i2,
 Proof. exact normalized_sorts_chronologically. Qed.
 Print Assumptions C18_normalized_sorts_chronologically.
 
+(** ... hence for ALL accepted texts, in either format, without a range
+    hypothesis: the normalised strings of two accepted texts compare as their
+    instants do *)
 Theorem C18_normalize_sorts : forall s1 s2 i1 i2 n1 n2,
-  denotes s1 = Some i1 -> denotes s2 = Some i2 -> instant_inrange i1 -> instant_inrange i2 ->
+  denotes s1 = Some i1 -> denotes s2 = Some i2 ->
   normalize_date s1 = Some n1 -> normalize_date s2 = Some n2 ->
   bcmp n1 n2 = instant_cmp i1 i2.
-Proof. exact normalize_sorts. Qed.
+Proof. exact normalize_sorts_all. Qed.
 Print Assumptions C18_normalize_sorts.
+
+(** an accepted text denotes an instant of a four-digit UTC year with a
+    nanosecond field in 0..999999999 *)
+Theorem C18_normalize_accepted_inrange : forall s n,
+  normalize_date s = Some n ->
+  exists i, denotes s = Some i /\ instant_inrange i /\ n = format_instant i.
+Proof. exact normalize_some_inrange. Qed.
+Print Assumptions C18_normalize_accepted_inrange.
 
 (** distinct instants have distinct normalised strings *)
 Theorem C18_normalize_injective : forall i1 i2,
   instant_inrange i1 -> instant_inrange i2 -> format_instant i1 = format_instant i2 -> i1 = i2.
 Proof. exact normalize_injective. Qed.
 Print Assumptions C18_normalize_injective.
+
+Theorem C18_normalize_injective_texts : forall s1 s2 i1 i2 n,
+  denotes s1 = Some i1 -> denotes s2 = Some i2 ->
+  normalize_date s1 = Some n -> normalize_date s2 = Some n -> i1 = i2.
+Proof. exact normalize_injective_all. Qed.
+Print Assumptions C18_normalize_injective_texts.
+
+(** the code as it stands violates "normalised strings sort chronologically":
+    9999-12-31T23:00:00-05:00 (accepted: four-digit year) normalises to
+    10000-01-01T04:00:00+00:00, which sorts BEFORE the string of the earlier
+    instant 9999-12-31T23:00:00Z; the repaired code rejects the text *)
+Theorem C18_asis_year_10000_sorts_wrongly_refuted :
+  let a := bs "9999-12-31T23:00:00-05:00" in
+  let b := bs "9999-12-31T23:00:00Z" in
+  normalize_date_asis a = Some (bs "10000-01-01T04:00:00+00:00") /\
+  normalize_date_asis b = Some (bs "9999-12-31T23:00:00+00:00") /\
+  (exists ia ib, denotes a = Some ia /\ denotes b = Some ib /\ instant_cmp ia ib = Gt) /\
+  bcmp (bs "10000-01-01T04:00:00+00:00") (bs "9999-12-31T23:00:00+00:00") = Lt /\
+  normalize_date a = None.
+Proof. exact asis_year_10000. Qed.
+Print Assumptions C18_asis_year_10000_sorts_wrongly_refuted.
 
 (** * series: one (unit, table), all orders of visiting the maps *)
 
@@ -273,6 +313,48 @@ Theorem C18_order_dependent_without_dates_refuted :
 Proof. exact order_dependent_d. Qed.
 Print Assumptions C18_order_dependent_without_dates_refuted.
 
+(** these four are the refuting witnesses of the known findings
+    C18_series_hash_two_stamps (a), C18_series_point_two_hash_pairs (b),
+    C18_series_trial_two_baseline_hashes (c) and
+    C18_series_same_instant_two_experiments (d): the property quantifies over
+    ALL result sets, so each is a deviation of the code, recorded in
+    known_findings.json; the judge compares every set with [spec_series] and
+    the relaxed judge leaves out exactly the places [excuses]
+    (Model/SeriesFindings.v) names *)
+
+(** finding (b), DUPE_COMBINE, independent of any order: two numerator hashes
+    of one trial at one series point - the single baseline measurement is
+    counted twice *)
+Theorem C18_combine_counts_baseline_twice_refuted :
+  option_map (map (fun s => map oc_den (se_cells s))) (out true wit_b2) = Some [[[10; 10]]] /\
+  option_map (map (fun s => map oc_den (se_cells s))) (spec_series true wit_b2) = Some [[[10]]] /\
+  option_map (map (fun s => map oc_num (se_cells s))) (out true wit_b2) = Some [[[1; 2]]].
+Proof. exact combine_counts_baseline_twice. Qed.
+Print Assumptions C18_combine_counts_baseline_twice_refuted.
+
+(** what the relaxed judge leaves out on the witnesses (per table: series
+    points entirely / hash pairs / denominator hashes / cells), nothing on a
+    well-formed set, and nothing in a well-formed table next to an ill-formed one *)
+Theorem C18_excuses_on_witnesses :
+  excuses true false wit_a = [mkEx [n1; n2] [] [] []] /\
+  excuses true false wit_b2 = [mkEx [] [n1; n1] [] [(bs "A", n1); (bs "A", n1)]] /\
+  excuses true false wit_c = [mkEx [] [] [n1] []] /\
+  excuses true false wit_d = [mkEx [] [] [] [(bs "A", n1); (bs "A", n1)]] /\
+  excuses true true wit_d = [ex_none] /\
+  excuses false false wit_a = [ex_none].
+Proof. exact excuses_on_witnesses. Qed.
+
+Theorem C18_excuses_none_on_example :
+  wf_a_norm Ex.rs && wf_b Ex.rs && wf_c Ex.rs && wf_d Ex.rs = true /\
+  forallb ex_empty (excuses true false Ex.rs) = true /\ forallb ex_empty (excuses true true Ex.rs) = true /\
+  exA_err Ex.rs (bad_hashes Ex.rs) = false.
+Proof. exact excuses_none_on_example. Qed.
+
+Theorem C18_excuses_per_table :
+  excuses true false wit_two_tables = [mkEx [] [] [n1] []; ex_none].
+Proof. exact excuses_per_table. Qed.
+Print Assumptions C18_excuses_per_table.
+
 (** the unrepaired COMBINE branch dereferences nil on a denominator-less trial
     (repaired by hooks/fix_c18_combine_nil.diff, which the model follows) *)
 Theorem C18_combine_nil_refuted : acs_panics true (adds wit_nil) (first_enum wit_nil) = true.
@@ -324,7 +406,9 @@ Theorem C18_bootstrap_ratios_in_hull : forall nu de conf n stream sorted o,
 Proof. exact bootstrap_ratios_in_hull. Qed.
 
 (** the guard is necessary: nu = {MaxFloat64, MaxFloat64}, de = {1}, N = 1: the
-    resampled median (M + M) / 2 is +Inf, outside the finite hull *)
+    resampled median (M + M) / 2 is +Inf, outside the finite hull.  All
+    measurements are positive and finite, so this is a deviation from the
+    property: the refuting witness of known finding C18_median_sum_overflow *)
 Theorem C18_centre_in_hull_needs_guard :
   let nu := [f_max; f_max] in let de := [b64_one] in
   forallb pos_sample nu = true /\ forallb pos_sample de = true /\
